@@ -43,6 +43,10 @@ def gen_case(seed, i):
         for k in range(rng.randint(40, 56) if (wide and g == 0) else rng.randint(2, 5)):
             d = rng.choice(roots) + rng.choice(["", "/a", "/a/b", "/a/b/c", "/x"])
             p = "%s/g%df%d" % (d, g, k)
+            if rng.random() < 0.15:
+                # names that are not plain ASCII (invalid UTF-8, multi-byte, trailing blank): the name patterns are
+                # matched against a lossy text form of the name and must still apply
+                p += rng.choice(["\xff.bak", "\xc3\xa9.bak", " .bak", ".bak", "\xe2\x82"])
             mt = rng.choice(tvals)
             w.add_file(p, {"fam": g + 1, "len": n, "flips": []}, mt=mt)
             times[p] = {"btime": rng.choice(tvals), "ctime": rng.choice(tvals), "atime": rng.choice(tvals), "mtime": mt}
@@ -73,7 +77,7 @@ def gen_case(seed, i):
         dflags += ["--priority", p]
     pats = {}
     r = rng.random()
-    names = ["g0*", "*f1*", "g?f0", "*h0", "g1f2", "*"]
+    names = ["g0*", "*f1*", "g?f0", "*h0", "g1f2", "*", "*.bak", "*?.bak", "g*f?"]
     paths = ["@W@/r1/**", "@W@/**/a/**", "**/x/*", "@W@/r2/*", "**/b/**", "@W@/**"]
     if r < 0.2:
         pats["name"] = [rng.choice(names)]
@@ -86,6 +90,18 @@ def gen_case(seed, i):
     elif r < 0.8:
         pats["name"] = [rng.choice(names)]
         pats["keep-path"] = [rng.choice(paths)]
+    elif r < 0.9:
+        # a keep pattern AND a drop pattern on one command line (a file may match both, neither, or one)
+        pats[rng.choice(["name", "path"])] = [rng.choice(names)] if rng.random() < 0.5 else [rng.choice(paths)]
+        pats[rng.choice(["keep-name", "keep-path"])] = [rng.choice(names)] if rng.random() < 0.5 else [rng.choice(paths)]
+        for k_ in list(pats):
+            if k_.endswith("name") and pats[k_][0].startswith(("@W@", "**")):
+                pats[k_] = [rng.choice(names)]
+            if k_.endswith("path") and not pats[k_][0].startswith(("@W@", "**")):
+                pats[k_] = [rng.choice(paths)]
+        if n is None or n < 2:
+            n = rng.choice([2, 2, 3])
+            dflags = [x for k2, x in enumerate(dflags) if not (x == "-n" or (k2 > 0 and dflags[k2 - 1] == "-n"))] + ["-n", str(n)]
     for k, vs in pats.items():
         for v in vs:
             dflags += ["--" + k, v]
@@ -161,19 +177,25 @@ def model_drop(case, rd, rep, labels_by_path):
     n = max(1, n)
     pats = {k: [v.replace("@W@", W) for v in vs] for k, vs in case["pats"].items()}
 
+    def lossy(p):
+        # patterns see the text form of a path: bytes that are not valid UTF-8 become U+FFFD
+        return p.encode("utf-8", "surrogateescape").decode("utf-8", "replace")
+
     def keep(p):
+        p = lossy(p)
         nm = os.path.basename(p)
         return any(glob_match(x, nm) for x in pats.get("keep-name", [])) or any(glob_match(x, p) for x in pats.get("keep-path", []))
 
     def droppable(p):
         if not pats.get("name") and not pats.get("path"):
             return True
+        p = lossy(p)
         nm = os.path.basename(p)
         return any(glob_match(x, nm) for x in pats.get("name", [])) or any(glob_match(x, p) for x in pats.get("path", []))
 
     drop = set()
     for g in rep.groups:
-        paths = [p.decode() for p in g.paths]
+        paths = [p.decode("utf-8", "surrogateescape") for p in g.paths]
         parts = [paths]
         if case["op"] in ("link", "dedupe"):
             bydev = {}
@@ -240,24 +262,25 @@ def model_drop(case, rd, rep, labels_by_path):
             todrop = todrop[missing:]
             for sg in todrop:
                 drop.update(sg)
-    return {p.encode() for p in drop}
+    return {p.encode("utf-8", "surrogateescape") for p in drop}
 
 
 def parse_script(out, op):
     """paths the dry-run script names as to be removed/replaced/moved (plain names only)"""
+    from . import c11
     named = set()
-    for line in out.decode("utf-8", "replace").split("\n"):
-        toks = shlex.split(line) if line.strip() else []
-        if not toks:
+    cmds, _ = c11.tokenise(out)          # tokenised by bash itself: names may need $'..' quoting
+    for toks in cmds:
+        if len(toks) < 2:
             continue
-        if toks[0] == "rm" and op == "remove":
-            named.add(toks[1].encode())
-        elif toks[0] == "mv" and op in ("link", "softlink", "dedupe"):
-            named.add(toks[1].encode())
-        elif toks[0] == "mv" and op == "move":
-            named.add(toks[1].encode())
-        elif toks[0] == "cp" and op == "move":
-            named.add(toks[1].encode())
+        if toks[0] == b"rm" and op == "remove":
+            named.add(toks[1])
+        elif toks[0] == b"mv" and op in ("link", "softlink", "dedupe"):
+            named.add(toks[1])
+        elif toks[0] == b"mv" and op == "move":
+            named.add(toks[1])
+        elif toks[0] == b"cp" and op == "move":
+            named.add(toks[1])
     return named
 
 
@@ -275,10 +298,10 @@ def run_case(case):
         for e in ents:
             src = e["p"] if e["t"] == "f" else e.get("to")
             if e["t"] in ("f", "h") and src in case["times"]:
-                ap = os.path.join(rd.world, e["p"])
-                st = os.lstat(ap)
+                apb = os.path.join(rd.wb(), s2b(e["p"]))
+                st = os.lstat(apb)
                 labels[st.st_ino] = dict(case["times"][src])
-                labels_by_path[ap] = case["times"][src]
+                labels_by_path[apb.decode("utf-8", "surrogateescape")] = case["times"][src]
         g = ops.group(rd, roots, case["gflags"] + ["--threads", "1"] + (["-f", "json"] if case["fmt"] == "json" else []),
                       env=env, labels=labels, seed=3)
         if g.rc != 0:
